@@ -32,6 +32,14 @@ def run(ctx):
                 "through the assembler. distinct = distinct inputs; non-trivial = non-empty input")
     bk_table = impl.mod("bk_encoding").DECODING_TABLE
     table_chars = {c for entry in bk_table for c in entry}
+    # the byte every table character must encode to, read off the decoding table (not asked of the encoder under test)
+    byte_of = {}
+    for bcode, entry in enumerate(bk_table):
+        for c in entry:
+            byte_of.setdefault(c, bcode)
+
+    def enc_expected(text):
+        return bytes(byte_of[c] for c in text)
 
     # ---- decoding: all 256 bytes (exhaustive)
     answers = ctx.driver.ask(["bkdec %d" % b for b in range(256)])
@@ -126,17 +134,17 @@ def run(ctx):
         for form in ("ascii", "char", "dchar"):
             if form == "ascii":
                 src = ".ascii " + quote_str("A" + ch + "B") + "\n"
-                want = b"A" + (ch.encode("bk") if inside else b"") + b"B"
+                want = b"A" + (enc_expected(ch) if inside else b"") + b"B"
             elif form == "char":
                 if ch in "'\t\r\n ":
                     continue
                 src = ".word '" + ch + "\n"
-                want = (ch.encode("bk") if inside else b"") + b"\x00"
+                want = (enc_expected(ch) if inside else b"") + b"\x00"
             else:
                 if ch in "\"\t\r\n ":
                     continue
                 src = ".word \"" + ch + "Z\n"
-                want = (ch.encode("bk") if inside else b"") + b"Z"
+                want = (enc_expected(ch) if inside else b"") + b"Z"
             r = impl.asm1(src)
             ctx.case(("asm", form, ch))
             ctx.count("assembler-" + form)
@@ -168,7 +176,7 @@ def run(ctx):
             ctx.case(("asm", form, ch))
             ctx.count("assembler-" + form)
             if inside:
-                want = nm.encode("bk").ljust(16, b" ")
+                want = enc_expected(nm).ljust(16, b" ")
                 if r.outcome != "ok" or len(r.emitted) != 1 or bytes(r.emitted[0][4]) != want:
                     ctx.violation("a table character in a tape name is not written as its byte", {"files": files}, expected=want.hex(), observed=r.summary())
             else:
